@@ -898,7 +898,11 @@ func runStdin(c *core.Ctx) {
 		} {
 			cmd := exec.Command("timeout", "60", os.Getenv("PANMC_CLI"), "-e", prog)
 			cmd.Stdin = strings.NewReader(in.String())
-			outb, _ := cmd.Output()
+			outb, rerr := cmd.Output()
+			if ee, isExit := rerr.(*exec.ExitError); isExit && ee.ExitCode() == 124 {
+				c.Incomplete("stdin family: the binary did not finish within 60 s (machine overloaded?)") // never an oracle
+				continue
+			}
 			got := strings.TrimSpace(string(outb))
 			c.Eval(1)
 			c.Validated(1)
